@@ -315,6 +315,8 @@ def run(run, tier, replay=None):
         jobs.append((l, d, "none", None, 0))
     for i, cfg in enumerate(G.RESERVED_CFGS):
         jobs.append((f"reserved{i}", G.reserved_doc(), "none", cfg, 0))
+    jobs.append(("enum_edge", G.enum_edge_doc(), "none", None, 0))
+    jobs.append(("enum_edge+literal", G.enum_edge_doc(), "none", {"literal_enums": True}, 0))
     jobs.append(("builtin_names", G.builtin_names_doc(), "none", None, 0))
     jobs.append(("builtin_names+doca", G.builtin_names_doc(), "none", {"docstrings_on_attributes": True}, 0))
     nh = 24 if tier == "quick" else 300
